@@ -77,6 +77,14 @@ def load_seeded():
 def run_neutral(argv):
     """Semantics-preserving edits: every listed property's quick check must stay quiet (exit 0)."""
     items = json.load(open(os.path.join(VERIF, "drills", "neutral.json")))
+    # property-preserving changes written by sub-agents: neutral/<ID>/{patch.diff,README.md,meta.json}
+    base = os.path.join(VERIF, "neutral")
+    for name in sorted(os.listdir(base)) if os.path.isdir(base) else []:
+        mp = os.path.join(base, name, "meta.json")
+        if os.path.exists(mp):
+            m = json.load(open(mp))
+            items.append({"name": name, "properties": m["properties"], "patch": os.path.join("neutral", name, "patch.diff"),
+                          "what": m.get("what", ""), "scale": m.get("scale", 0.5)})
     names = [a for a in argv if not a.startswith("--")]
     bad = 0
     total = 0
